@@ -322,6 +322,75 @@ def norm_index(i, n):
     return z3.If(i < 0, z3.If(n + i < 0, 0, n + i), z3.If(i > n, n, i))
 
 
+def concat_parts(z):
+    if z.decl().kind() == z3.Z3_OP_SEQ_CONCAT:
+        out = []
+        for c in z.children():
+            out.extend(concat_parts(c))
+        return out
+    return [z]
+
+
+def mk_concat(parts):
+    parts = [p for p in parts if not (z3.is_string_value(p) and p.as_string() == "")]
+    if not parts:
+        return z3.StringVal("")
+    if len(parts) == 1:
+        return parts[0]
+    return z3.Concat(*parts)
+
+
+def split_parts(ctx, z, pos):
+    """Split the string term z at position pos *syntactically* when pos falls on a boundary of its
+    concatenation structure (or a known distance into one part).  -> (left, right) or None."""
+    parts = concat_parts(z)
+    if len(parts) == 1 and not z3.is_int_value(z3.simplify(pos)):
+        d = z3.simplify(pos - z3.Length(z))
+        if z3.is_int_value(d) and d.as_long() == 0:
+            return z, z3.StringVal("")
+        return None
+    acc = z3.IntVal(0)
+    for i, p in enumerate(parts):
+        d = z3.simplify(pos - acc)
+        if not z3.is_int_value(d):
+            # a registered word equation  p == a ++ b  with |a| == d splits the part itself
+            for a, b in ctx.decomps.get(p.get_id(), []):
+                dd = z3.simplify(d - z3.Length(a))
+                if z3.is_int_value(dd) and dd.as_long() == 0:
+                    return mk_concat(parts[:i] + [a]), mk_concat([b] + parts[i + 1:])
+        if z3.is_int_value(d):
+            k = d.as_long()
+            if k == 0:
+                return mk_concat(parts[:i]), mk_concat(parts[i:])
+            if k > 0:
+                lp = z3.simplify(z3.Length(p))
+                known = (z3.is_int_value(lp) and lp.as_long() >= k) or (
+                    not z3.is_int_value(lp) and ctx.check(z3.Length(p) < k)[0] == "unsat")
+                if known:
+                    return (mk_concat(parts[:i] + [z3.SubString(p, 0, k)]),
+                            mk_concat([z3.SubString(p, k, z3.Length(p) - k)] + parts[i + 1:]))
+                return None
+            if i >= 1:
+                # a known distance before this boundary: inside the previous part, counted from its end
+                q = parts[i - 1]
+                if ctx.check(z3.Length(q) < -k)[0] == "unsat":
+                    lq = z3.Length(q)
+                    return (mk_concat(parts[:i - 1] + [z3.SubString(q, 0, lq + k)]),
+                            mk_concat([z3.SubString(q, lq + k, -k)] + parts[i:]))
+            return None
+        acc = acc + z3.Length(p)
+    d = z3.simplify(pos - acc)
+    if z3.is_int_value(d) and d.as_long() == 0:
+        return z, z3.StringVal("")
+    if z3.is_int_value(d) and d.as_long() < 0 and parts:
+        k = d.as_long()
+        q = parts[-1]
+        if ctx.check(z3.Length(q) < -k)[0] == "unsat":
+            lq = z3.Length(q)
+            return (mk_concat(parts[:-1] + [z3.SubString(q, 0, lq + k)]), z3.SubString(q, lq + k, -k))
+    return None
+
+
 def str_slice(I, s, sl):
     if sl.step is not None and sl.step != 1:
         if isinstance(s, str) and all(x is None or isinstance(x, int) for x in (sl.lo, sl.hi, sl.step)):
@@ -331,6 +400,28 @@ def str_slice(I, s, sl):
         return s[sl.lo:sl.hi]
     z = zs(s)
     n = z3.Length(z)
+    if not z3.is_string_value(z) and (sl.step is None) and sl.lo is not None and not (isinstance(sl.lo, int) and sl.lo < 0):
+        # structural fast path: the slice bounds fall on the concatenation structure of the term
+        cut = split_parts(I.ctx, z, zi(sl.lo))
+        if cut is not None:
+            right = cut[1]
+            if sl.hi is None:
+                return mk_str(right)
+            if not (isinstance(sl.hi, int) and sl.hi < 0):
+                cut2 = split_parts(I.ctx, right, zi(sl.hi) - zi(sl.lo))
+                if cut2 is not None:
+                    return mk_str(cut2[0])
+    if not z3.is_string_value(z) and (sl.step is None) and sl.lo is None and sl.hi is not None and not (isinstance(sl.hi, int) and sl.hi < 0):
+        cut = split_parts(I.ctx, z, zi(sl.hi))
+        if cut is not None:
+            return mk_str(cut[0])
+
+    if not z3.is_string_value(z) and sl.step is None:
+        # z[:-k] / z[-k:] for a concrete k when |z| >= k is known: a shared word equation z == init ++ tail
+        if sl.lo is None and isinstance(sl.hi, int) and sl.hi < 0 and I.ctx.check(n < -sl.hi)[0] == "unsat":
+            return mk_str(I.ctx.end_decomp(z, -sl.hi)[0])
+        if sl.hi is None and isinstance(sl.lo, int) and sl.lo < 0 and I.ctx.check(n < -sl.lo)[0] == "unsat":
+            return mk_str(I.ctx.end_decomp(z, -sl.lo)[1])
 
     def bound(b, default):
         if b is None:
@@ -357,12 +448,12 @@ def str_slice(I, s, sl):
         # instances of the decomposition lemma  z == z[:lo] ++ z[lo:hi] ++ z[hi:]  (sound; helps the solver)
         if sl.hi is None and not z3.is_string_value(z):
             inr = z3.And(lo >= 0, lo <= n)
-            I.ctx.assume(z3.Implies(inr, z == z3.Concat(z3.SubString(z, 0, lo), r)))
-            I.ctx.assume(z3.Implies(inr, z3.Length(r) == n - lo))
+            I.ctx.assume(z3.Implies(inr, z == z3.Concat(z3.SubString(z, 0, lo), r)), kind="lib")
+            I.ctx.assume(z3.Implies(inr, z3.Length(r) == n - lo), kind="lib")
         elif sl.lo is None and not z3.is_string_value(z):
             inr = z3.And(hi >= 0, hi <= n)
-            I.ctx.assume(z3.Implies(inr, z == z3.Concat(r, z3.SubString(z, hi, n - hi))))
-            I.ctx.assume(z3.Implies(inr, z3.Length(r) == hi))
+            I.ctx.assume(z3.Implies(inr, z == z3.Concat(r, z3.SubString(z, hi, n - hi))), kind="lib")
+            I.ctx.assume(z3.Implies(inr, z3.Length(r) == hi), kind="lib")
         return mk_str(r)
     return mk_str(z3.If(hi > lo, z3.SubString(z, lo, hi - lo), z3.StringVal("")))
 
@@ -379,13 +470,13 @@ def char_at_facts(ctx, z, pos, depth=0):
         a = args[0]
         b = args[1] if len(args) == 2 else z3.Concat(*args[1:])
         la = z3.Length(a)
-        ctx.assume(z3.Implies(z3.And(pos >= 0, pos < la), here == z3.SubString(a, pos, 1)))
-        ctx.assume(z3.Implies(z3.And(pos >= la, pos < la + z3.Length(b)), here == z3.SubString(b, pos - la, 1)))
+        ctx.assume(z3.Implies(z3.And(pos >= 0, pos < la), here == z3.SubString(a, pos, 1)), kind="lib")
+        ctx.assume(z3.Implies(z3.And(pos >= la, pos < la + z3.Length(b)), here == z3.SubString(b, pos - la, 1)), kind="lib")
         char_at_facts(ctx, a, pos, depth + 1)
     elif k == z3.Z3_OP_SEQ_EXTRACT:
         w, lo, ln = z.children()
         ctx.assume(z3.Implies(z3.And(pos >= 0, pos < ln, lo >= 0, lo + pos < z3.Length(w)),
-                              here == z3.SubString(w, lo + pos, 1)))
+                              here == z3.SubString(w, lo + pos, 1)), kind="lib")
         char_at_facts(ctx, w, lo + pos, depth + 1)
 
 
@@ -480,6 +571,17 @@ def getitem(I, v, idx, node=None):
         if not ctx.branch(ok):
             raise PyRaise("IndexError", "string index out of range", site=node)
         pos = i if (isinstance(idx, int) and idx >= 0) else z3.If(i < 0, n + i, i)
+        if isinstance(idx, int) and idx < 0 and not z3.is_string_value(z):
+            tail = ctx.end_decomp(z, -idx)[1]
+            return SStr(tail, nonempty=True) if idx == -1 else mk_str(z3.SubString(tail, 0, 1))
+        if not z3.is_string_value(z):
+            cut = split_parts(ctx, z, z3.simplify(pos))
+            if cut is not None:
+                first = concat_parts(cut[1])[0]
+                lf = z3.simplify(z3.Length(first))
+                simple = first.decl().kind() not in (z3.Z3_OP_SEQ_EXTRACT, z3.Z3_OP_SEQ_AT, z3.Z3_OP_ITE)
+                if simple and ((z3.is_int_value(lf) and lf.as_long() >= 1) or ctx.check(z3.Length(first) < 1)[0] == "unsat"):
+                    return mk_str(z3.SubString(first, 0, 1))
         char_at_facts(ctx, z, pos)
         return mk_str(z3.SubString(z, pos, 1))
     if isinstance(v, (bytes, SBytes)):
@@ -864,11 +966,11 @@ def str_method(I, s, name, args, kwargs, node=None):
         return mk_int(r)
     if name == "rfind":
         if len(args) == 1:
-            return mk_int(z3.LastIndexOf(z, zs(args[0])))
+            return mk_int(ctx.rfind_fn(z, zs(args[0])))
         if len(args) == 3 and args[1] == 0:
             # rfind(sub, 0, end): last index in s[:end]
             pre = zs(str_slice(I, s, SliceV(None, args[2], None)))
-            return mk_int(z3.LastIndexOf(pre, zs(args[0])))
+            return mk_int(ctx.rfind_fn(pre, zs(args[0])))
         raise OutOfReach("rfind form")
     if name == "count":
         sub = args[0]
@@ -1145,6 +1247,7 @@ def _str(I, args, kwargs):
     raise OutOfReach("str(%r)" % (v,))
 
 
+BUILTINS["__debug__"] = True          # assertions enabled (stated assumption)
 BUILTINS["text_type"] = TypeV("str")
 BUILTINS["binary_type"] = TypeV("bytes")
 for _t in ("str", "int", "bool", "bytes", "dict", "list", "tuple", "set", "frozenset", "object", "type"):
@@ -1539,6 +1642,18 @@ def _code(I, args, kwargs):
     if isinstance(c, str):
         return ord(c)
     return mk_int(z3.StrToCode(zs(c)))
+
+
+@_native("assume_lemma")
+def _assume_lemma(I, args, kwargs):
+    """assume_lemma(name, fact): use an instance of a lemma that is not proved by the engine.  The fact is
+    added to the path condition; the lemma is listed under assumptions in the evidence (and exercised
+    natively: the native definition asserts the instance)."""
+    name, fact = args
+    I.ctx.notes.append("assumed-lemma: " + str(name))
+    t = I.truth(fact)
+    I.ctx.assume(t, kind="cut")
+    return True
 
 
 @_native("int_value")
